@@ -238,5 +238,7 @@ func (puritySuite) Run(raw json.RawMessage) []Step {
 	}
 	// 4. aliasing histories: the published values before / after work on clones, field by field (purity_alias.go)
 	steps = append(steps, aliasSteps(c, baseline, r)...)
+	// 5. the same index objects in permuted orders, twin packages in a mirror repository (purity_alias.go)
+	steps = append(steps, orderSteps(c, r)...)
 	return steps
 }
